@@ -6,8 +6,13 @@
     header        two `--` comments;
     per database  a comment ` Database: <name> (OID: <oid>)` and a comment ` \connect <name>`;
     per table     a comment ` Table: <name> (<n> rows)`;
-                  CREATE TABLE IF NOT EXISTS <name> ( <column> <type words> , … ) ;
-                  and, when the table has rows,  INSERT INTO <name> ( <column> , … ) VALUES ( <cell> , … ) , … ;
+                  CREATE TABLE IF NOT EXISTS <name> ( <column> <type words> , … ) ;      (the column list may be empty)
+                  and, when the table has rows and at least one column,
+                  INSERT INTO <name> ( <column> , … ) VALUES ( <cell> , … ) , … ;        (every list non-empty)
+                  or, when the table has rows and NO column, once per row
+                  INSERT INTO <name> DEFAULT VALUES ;
+                  (PostgreSQL's grammar: insert_column_list and expr_list need at least one item — `INSERT INTO t () VALUES ()`
+                  is a syntax error; OptTableElementList may be empty);
   where
     <name>/<column> is exactly ONE token that decodes to the stored name: a quoted identifier with that content, or a
                   bare word equal to the name that PostgreSQL would neither fold nor read as a keyword;
@@ -17,7 +22,9 @@
                   finite floats as `-`? number, NaN/±Inf as a quoted spelling PostgreSQL's float input accepts;
                   strings as one string constant with exactly the stored bytes;
                   objects as one string constant whose content is valid JSON with that value (Spec.Json);
-                  arrays as ARRAY [ <cell> , … ] recursively;
+                  non-empty arrays as ARRAY [ <cell> , … ] recursively (at least one element: PostgreSQL rejects `ARRAY[]`,
+                  "cannot determine type of empty array"); the empty array as the string constant '{}' (array input
+                  syntax, accepted by a column of any array type);
                   in a json/jsonb column every non-NULL value as one string constant holding valid JSON with that value;
     <type words>  one or more bare words (the column type is not stored data: pgread takes it from a fixed table).
   Nothing may follow.  Since every name and value is matched against exactly one token (or the fixed token group of a
@@ -108,10 +115,12 @@ def value (F : FloatFmt) : GoVal → Toks → Option Toks
   | .f32 b, ts => floatCell (Json.isNonFinite32 b) (b % 2 ^ 23 != 0) (b / 2 ^ 31 % 2 == 1) (F.v32 b) ts
   | .str s, ts => one (fun t => t == .str s) ts
   | .obj kvs, ts => one (fun t => match t with | .str s => Json.textAgrees F (.obj kvs) s | _ => false) ts
-  | .arr xs, ts => ((one (isWord "array") ts).bind (one (isOp 91))).bind fun ts => (values F xs ts).bind (one (isOp 93))
-/-- values separated by commas (none for the empty list) -/
+  | .arr [], ts => one (fun t => t == .str (SqlLex.asc "{}")) ts
+  | .arr (x :: xs), ts =>
+    ((one (isWord "array") ts).bind (one (isOp 91))).bind fun ts => (values F (x :: xs) ts).bind (one (isOp 93))
+/-- one or more values separated by commas -/
 def values (F : FloatFmt) : List GoVal → Toks → Option Toks
-  | [], ts => some ts
+  | [], _ => none
   | [x], ts => value F x ts
   | x :: y :: rest, ts => ((value F x ts).bind (one (isOp 44))).bind (values F (y :: rest))
 end
@@ -130,9 +139,10 @@ def cell (F : FloatFmt) (row : Row) (col : ColumnInfo) (ts : Toks) : Option Toks
     if isJsonType col.typID then one (fun t => match t with | .str s => Json.textAgrees F v s | _ => false) ts
     else value F v ts
 
-/-- `items` separated by commas -/
+/-- one or more `items` separated by commas (an empty list is not accepted: PostgreSQL's column lists, value lists and
+VALUES lists all need at least one item) -/
 def sepBy {α} (item : α → Toks → Option Toks) : List α → Toks → Option Toks
-  | [], ts => some ts
+  | [], _ => none
   | [x], ts => item x ts
   | x :: y :: rest, ts => ((item x ts).bind (one (isOp 44))).bind (sepBy item (y :: rest))
 
@@ -150,15 +160,31 @@ def column (c : ColumnInfo) (ts : Toks) : Option Toks := (one (isName c.name) ts
 def rowToks (F : FloatFmt) (cols : List ColumnInfo) (r : Row) (ts : Toks) : Option Toks :=
   ((one (isOp 40) ts).bind (sepBy (cell F r) cols)).bind (one (isOp 41))
 
+/-- zero or more `items` separated by commas (the column definitions of CREATE TABLE: `CREATE TABLE t ();` is accepted) -/
+def sepBy0 {α} (item : α → Toks → Option Toks) (xs : List α) (ts : Toks) : Option Toks :=
+  if xs.isEmpty then some ts else sepBy item xs ts
+
+/-- INSERT INTO <name> DEFAULT VALUES ; -/
+def defaultRow (name : Bytes) (ts : Toks) : Option Toks := do
+  let ts ← words ["insert", "into"] ts
+  let ts ← one (isName name) ts
+  let ts ← words ["default", "values"] ts
+  one (isOp 59) ts
+
+def seqAll {α} (item : α → Toks → Option Toks) : List α → Toks → Option Toks
+  | [], ts => some ts
+  | x :: rest, ts => (item x ts).bind (seqAll item rest)
+
 def table (F : FloatFmt) (t : TableDump) (ts : Toks) : Option Toks := do
   let ts ← one (isNameComment (SqlLex.asc " Table: ") t.name (SqlLex.asc " (" ++ decInt t.rowCount ++ SqlLex.asc " rows)")) ts
   let ts ← words ["create", "table", "if", "not", "exists"] ts
   let ts ← one (isName t.name) ts
   let ts ← one (isOp 40) ts
-  let ts ← sepBy column t.columns ts
+  let ts ← sepBy0 column t.columns ts
   let ts ← one (isOp 41) ts
   let ts ← one (isOp 59) ts
   if t.rows.isEmpty then some ts
+  else if t.columns.isEmpty then seqAll (fun (_ : Row) => defaultRow t.name) t.rows ts
   else
     let ts ← words ["insert", "into"] ts
     let ts ← one (isName t.name) ts
@@ -168,10 +194,6 @@ def table (F : FloatFmt) (t : TableDump) (ts : Toks) : Option Toks := do
     let ts ← one (isWord "values") ts
     let ts ← sepBy (rowToks F t.columns) t.rows ts
     one (isOp 59) ts
-
-def seqAll {α} (item : α → Toks → Option Toks) : List α → Toks → Option Toks
-  | [], ts => some ts
-  | x :: rest, ts => (item x ts).bind (seqAll item rest)
 
 def database (F : FloatFmt) (d : DatabaseDump) (ts : Toks) : Option Toks := do
   let ts ← one (isNameComment (SqlLex.asc " Database: ") d.name (SqlLex.asc " (OID: " ++ dec d.oid ++ SqlLex.asc ")")) ts
